@@ -150,7 +150,55 @@ def run_unit(ctx, u):
                     else:
                         ok = ok and abs(float(m(x, y)) - ref_db) < 1e-3 and abs(float(SignalToNoiseRatio(mode="linear")(x, y)) / 10 ** (ref_db / 10) - 1) < 1e-4
                     ctx.check(ok, "SNR tools agree", f"calculate_snr/SignalToNoiseRatio/noise_power_to_snr|{cfgc}|SNR tools agree|differ from reference", shape=list(shape), reference_db=ref_db, calculate_snr=v1)
-        ctx.sample({"unit": "exact", "shapes": [[64], [4, 16], [2, 3, 4, 4]]})
+        # ---- the dim / keepdim forms of the utilities: slices with very different signal *and* noise powers
+        from kaira.utils import estimate_signal_power
+
+        for shape, dims in (((4, 64), (1, -1, 0, (0, 1))), ((3, 2, 4, 8), ((1, 2, 3), 3, (2, 3), 0, (0, 1, 2, 3)))):
+            for cplx in (False, True):
+                for dt in (torch.float32, torch.float64):
+                    cfgc = f"{'complex' if cplx else 'real'},{str(dt).replace('torch.', '')}"
+                    B = shape[0]
+                    sig_scale = torch.tensor([10.0 ** (i - 1) for i in range(B)], dtype=dt).reshape((B,) + (1,) * (len(shape) - 1))
+                    noi_scale = torch.tensor([10.0 ** (-(i % 3)) * 0.7 for i in range(B)], dtype=dt).reshape((B,) + (1,) * (len(shape) - 1))
+                    x = torch.randn(shape, generator=g, dtype=dt) * sig_scale
+                    nz = torch.randn(shape, generator=g, dtype=dt) * noi_scale
+                    if cplx:
+                        x = torch.complex(x, torch.randn(shape, generator=g, dtype=dt) * sig_scale)
+                        nz = torch.complex(nz, torch.randn(shape, generator=g, dtype=dt) * noi_scale)
+                    y = x + nz
+                    for dim in dims:
+                        for keep in (False, True):
+                            ctx.case("exact-dim", shape, cplx, str(dt), dim, keep)
+                            Px = (x.abs() ** 2).double().mean(dim=dim, keepdim=keep)
+                            Pn = (nz.abs() ** 2).double().mean(dim=dim, keepdim=keep)
+                            ref = 10 * torch.log10(Px / Pn)
+                            try:
+                                est = estimate_signal_power(x, dim=dim, keepdim=keep)
+                                got = calculate_snr(x, y, dim=dim, keepdim=keep)
+                            except Exception as e:  # noqa: BLE001
+                                ctx.violation(f"calculate_snr(dim)|{cfgc}|SNR tools agree|raised:{type(e).__name__}", shape=list(shape), dim=dim, keepdim=keep, error=str(e)[:200])
+                                continue
+                            ok = tuple(est.shape) == tuple(Px.shape) and bool(torch.allclose(est.double(), Px, rtol=1e-4))
+                            ctx.check(ok, "SNR tools agree", f"estimate_signal_power(dim)|{cfgc}|SNR tools agree|differs from the per-slice mean power", shape=list(shape), dim=dim, keepdim=keep, got=est.flatten()[:4], expected=Px.flatten()[:4])
+                            ok = tuple(got.shape) == tuple(ref.shape) and bool(torch.allclose(got.double(), ref, atol=2e-3))
+                            ctx.check(ok, "SNR tools agree", f"calculate_snr(dim)|{cfgc}|SNR tools agree|differs from the per-slice reference", shape=list(shape), dim=dim, keepdim=keep, got=got.flatten()[:4], expected=ref.flatten()[:4])
+                    # add_noise_for_snr(dim): the noise of a slice follows that slice's power - same-seed relation
+                    # noise(seed, a_i * x_i) = a_i * noise(seed, x_i) for per-item factors a_i, and per-item SNR on long items
+                    for dim in ([(1,)] if len(shape) == 2 else [(1, 2, 3)]):
+                        a = torch.tensor([3.0 ** i for i in range(B)], dtype=dt).reshape((B,) + (1,) * (len(shape) - 1))
+                        torch.manual_seed(11)
+                        _, n1 = add_noise_for_snr(x, 6.0, dim=dim)
+                        torch.manual_seed(11)
+                        _, n2 = add_noise_for_snr(x * a, 6.0, dim=dim)
+                        ok = bool(torch.allclose(n2, n1 * a, rtol=1e-4, atol=0))
+                        ctx.check(ok, "same-seed scaling", f"add_noise_for_snr(dim)|{cfgc}|same-seed scaling|per-item noise does not follow the per-item signal power", shape=list(shape), dim=list(dim))
+                        Pxi = (x.abs() ** 2).double().mean(dim=dim)
+                        Pni = (n1.abs() ** 2).double().mean(dim=dim)
+                        if x[0].numel() >= 64:
+                            snr_i = 10 * torch.log10(Pxi / Pni)
+                            # 64 samples per item (fixed torch seed): sample power of the noise within +-4.5 dB of its expectation (10 sigma)
+                            ctx.check(bool(((snr_i - 6.0).abs() < 4.5).all()), "SNR = configured", f"add_noise_for_snr(dim)|{cfgc}|SNR = configured|per-item SNR off by more than 4.5 dB", shape=list(shape), per_item_snr=snr_i)
+        ctx.sample({"unit": "exact", "shapes": [[64], [4, 16], [2, 3, 4, 4]], "dim_forms": {"(4,64)": [1, -1, 0, [0, 1]], "(3,2,4,8)": [[1, 2, 3], 3, [2, 3], 0, [0, 1, 2, 3]]}})
         return
 
     # ---------------------------------------------------------------- statistical unit
